@@ -2,6 +2,7 @@ package keeper
 
 import (
 	"context"
+	"time"
 
 	corestore "cosmossdk.io/core/store"
 
@@ -44,6 +45,10 @@ type vStaking struct {
 type vValSet struct {
 	stakingtypes.ValidatorSet
 	s *vStaking
+}
+
+func (s *vStaking) UnbondingTime(context.Context) (time.Duration, error) {
+	return time.Duration(s.unbondingTime) * time.Second, nil
 }
 
 func (s *vStaking) GetValidatorSet() stakingtypes.ValidatorSet { return vValSet{s: s} }
